@@ -114,7 +114,7 @@ type gateSpec struct {
 	errIdx    int  // index of the error result (-1: none)
 	// bypassOK: an edge on which skipping the gate is legitimate (e.g. policy not configured,
 	// method of another service). Receives the classified conditions known on that edge.
-	bypassOK func(cs []condClass) bool
+	bypassOK  func(cs []condClass) bool
 	bypassDoc string
 }
 
